@@ -1,7 +1,7 @@
 (* C03 -- the rainflow result depends only on the reversal sequence; symmetries.
    Model: PL.Rainflow.Model (tied to the code by correspondence).  Only statements, `exact`, Print Assumptions. *)
 From Coq Require Import ZArith List Bool.
-From PL Require Import Rainflow.Model Rainflow.Eqb Rainflow.Spec Rainflow.SpecThm Rainflow.Symm Rainflow.Symm2 Rainflow.Bounded3 Rainflow.NaN Rainflow.Symm3.
+From PL Require Import Rainflow.Model Rainflow.Eqb Rainflow.Spec Rainflow.SpecThm Rainflow.Symm Rainflow.Symm2 Rainflow.Bounded3 Rainflow.NaN Rainflow.Symm3 Rainflow.Symm3b.
 Import ListNotations.
 Open Scope Z_scope.
 
@@ -57,6 +57,11 @@ Theorem refine_insensitive_4pt l1 u y v l2 : (u <= y <= v \/ v <= y <= u) ->
   let '(c', r', _, _) := run4 [(l1 ++ [u]) ++ v :: l2] in
   cyc_values c = cyc_values c' /\ r = r'.
 Proof. exact (Symm2.run4_insert_values l1 u y v l2). Qed.
+Theorem refine_insensitive_3pt l1 u y v l2 : (u <= y <= v \/ v <= y <= u) ->
+  let '(c, r, _, _) := run3 [(l1 ++ [u]) ++ y :: v :: l2] in
+  let '(c', r', _, _) := run3 [(l1 ++ [u]) ++ v :: l2] in
+  cyc_values c = cyc_values c' /\ r = r'.
+Proof. exact (Symm3b.run3_insert_values l1 u y v l2). Qed.
 Theorem refine_insensitive_fkm l1 u y v l2 : (u <= y <= v \/ v <= y <= u) ->
   let '(c, r, _) := runF [(l1 ++ [u]) ++ y :: v :: l2] in
   let '(c', r', _) := runF [(l1 ++ [u]) ++ v :: l2] in
@@ -71,8 +76,7 @@ Theorem nan_drop_index s :
   Forall (fun iv => nth_error s (fst iv) = Some (Some (snd iv))) (find_turns_nan s).
 Proof. exact (NaN.nan_drop_index s). Qed.
 
-(* three-point detector: bounded instances kept (symmetries are now also proved unbounded above; the
-   refinement statement for the three-point detector is proved bounded only) *)
+(* three-point detector: the earlier bounded instances are kept as cross-checks (the unbounded statements are above) *)
 Theorem threepoint_symmetries_bounded s :
   (1 <= length s <= 7)%nat -> Forall (fun x => 0 <= x <= 3) s ->
   eqobs (run3 [map Z.opp s]) (map_obs Z.opp (run3 [s])) = true /\
@@ -98,6 +102,7 @@ Print Assumptions negate_fkm.
 Print Assumptions fkm_scale.
 Print Assumptions reversal_values_insert.
 Print Assumptions refine_insensitive_4pt.
+Print Assumptions refine_insensitive_3pt.
 Print Assumptions refine_insensitive_fkm.
 Print Assumptions nan_drop_index.
 Print Assumptions threepoint_symmetries_bounded.
